@@ -642,7 +642,12 @@ FUNCS = {"Mark": (["i64"], "bnone"), "IdI": (["i"], "(becho 0)"), "IdI8": (["i8"
          "IdF64": (["f64"], "(becho 0)"), "IdS": (["s"], "(becho 0)"), "IdB": (["b"], "(becho 0)"), "Two": (["i64", "f64"], "(becho 0)"),
          "Mix3": (["u8", "s", "i32"], "(becho 2)"), "NoRet": ([], "bnone"), "Boom": ([], "bpanic"), "BoomErr": ([], "bpanic"), "BoomRT": ([], "bpanic"), "Hold": (["s"], "bnone"), "Gate": (["s"], "bnone"), "After": (["s"], "bnone")}
 HOST_METHODS = {"Mark": (["i64"], "bnone"), "Id64": (["i64"], "(becho 0)"), "IdU8": (["u8"], "(becho 0)"), "IdF64": (["f64"], "(becho 0)"), "Boom": ([], "bpanic"),
-                "Echo": (["i64"], "(becho 0)")}
+                "Echo": (["i64"], "(becho 0)"),
+                # Slot returns a pointer into the host (to h.I64): an opaque value of kind ptr in the model
+                "Slot": ([], '(bconst (vother "ptr"))'),
+                # PushSL appends to h.SL in the real host; the Coq model has no growing behaviour: it is listed so that hosts look
+                # alike, and it is called only by scenarios whose expectation is stated in the driver (C09 termination scenarios)
+                "PushSL": (["i32"], "bnone")}
 SUB_METHODS = {"GetN": (["i32"], "(becho 0)"), "EchoN": (["i32"], "(becho 0)")}
 # value-receiver methods: the only ones a struct VALUE (injected by value, or a struct-typed field) offers through reflection
 HOST_VALUE_METHODS = ("Echo",)
